@@ -267,7 +267,7 @@ inline Arg describe(const Nested &v) { return text_arg("<" + std::to_string(v.a)
 
 template <typename... T> inline std::vector<Arg> describe_all(const T &...a) { return std::vector<Arg>{describe(a)...}; }
 
-static const int NSHAPES = 50;
+static const int NSHAPES = 52;
 
 // Calls `sink(fmt, args...)` with the typed arguments of `shape`; fills *desc.
 template <typename Sink>
@@ -329,6 +329,18 @@ inline void call_shape(int shape, const Values &v, const char *fmt, std::vector<
         SH(47, v.i, v.i, v.i, v.i, v.i)
         SH(48, Nested{v.l, v.st})
         SH(49, v.i, Nested{v.ll, v.st}, v.b)
+    case 50: {   // the same non-const lvalue objects passed for two parameters each
+        ST::string a = v.st; std::string b = v.ss; std::wstring c = v.ws;
+        if (desc) *desc = describe_all(a, a, b, b, c, c);
+        sink(fmt, a, a, b, b, c, c);
+        return;
+    }
+    case 51: {   // ... and named rvalue-capable locals mixed with their own copies
+        ST::string a = v.st; std::u16string b = v.s16;
+        if (desc) *desc = describe_all(a, v.i, a, b, b);
+        sink(fmt, a, v.i, a, b, b);
+        return;
+    }
     default: return;
     }
 #undef SH
